@@ -211,6 +211,9 @@ def relevant(pid, complaint):
 def replay(pid, path):
     """Re-run a stored case against the current /repo working tree."""
     case = json.load(open(os.path.join(path, "case.json")))
+    if case.get("engine") == "symdrive":
+        from . import e3
+        return e3.replay_case(path)
     text = open(os.path.join(path, "grammar.lalrpop")).read()
     env = dict(case.get("env") or {})
     gen = K.run_generator(text, case["grammar"], env=env, features=case["features"] or None)
